@@ -132,10 +132,12 @@ Fixpoint key_rows_with (lk : question -> string) (l : list (question * string)) 
   | (q, observed) :: r => key_row_vs lk q observed r && key_rows_with lk r
   end.
 
-(** The tree as it is ([lock_key]) or with notes/candidate-fixes/C14-range-lock-key.patch applied ([lock_key_fixed]):
-    whether the unrepaired key still produces shared slices is judged by the oracle (known finding), not here. *)
+(** [lock_key] interprets the key table regenerated from the source: same partition of the sample questions as the
+    keys the real client was seen holding, and the very same strings. *)
 Definition key_rows (l : list (question * string)) : option string :=
-  if key_rows_with lock_key l || key_rows_with lock_key_fixed l then None else Some "lock-key-partition".
+  if negb (key_rows_with lock_key l) then Some "lock-key-partition"
+  else if negb (forallb (fun qo : question * string => String.eqb (lock_key (fst qo)) (snd qo)) l) then Some "lock-key-string"
+  else None.
 
 Inductive case :=
 | KeyCase (id : N) (rows : list (question * string))
